@@ -73,8 +73,14 @@ func AddRepository(ctx context.Context, url string) error {
 		return fmt.Errorf("couldn't create plugin repositories directory: %w", err)
 	}
 	verifhook.BeforeWrite("repo.before_write", filepath.Join(repositoriesDir, repo.Slug), data)
-	if err := os.WriteFile(filepath.Join(repositoriesDir, repo.Slug), data, 0644); err != nil {
+	// Every file in repositoriesDir is parsed as a repository entry, so the temporary file lives
+	// next to the directory and is renamed into it once complete.
+	tmpFile := filepath.Join(config.OctosqlDataDir, ".repository-"+repo.Slug+".tmp")
+	if err := os.WriteFile(tmpFile, data, 0644); err != nil {
 		return fmt.Errorf("couldn't write repository entry: %w", err)
+	}
+	if err := os.Rename(tmpFile, filepath.Join(repositoriesDir, repo.Slug)); err != nil {
+		return fmt.Errorf("couldn't move repository entry into place: %w", err)
 	}
 	verifhook.Point("repo.after_write")
 
